@@ -580,14 +580,28 @@ theorem c09_rebuild_cases (r : Remote) (s : Schema) (i : Item) (h : remoteRecrea
       · exact Or.inr (Or.inl hs)
     · exact Or.inl hk
 
-/-- **resize in place keeps the count, rebuild loses it**: a sync that does not rebuild leaves the limiter object
-    (`remInner`), its bucket's count (`remCount`) and the wrapper (`remOuter`) alone and the limiter afterwards is the
-    old one, resized at most; a sync that rebuilds installs a NEW object (`remInner + 1`) with an EMPTY bucket -/
+/-- **a new limiter object (an empty bucket) only when there is none or the TYPE differs**: a changed limit, a changed
+    strategy — the schema's or whatever the server answers — never replaces the limiter that counts the requests in
+    flight (`newFlowControl` keeps it, resizes it and wraps it anew) -/
+theorem c09_new_bucket_cases (r : Remote) (s : Schema) (i : Item) (h : remoteNewBucket r s i = true) :
+    r.fc = none ∨ ∃ g, r.fc = some g ∧ g.inner.kind ≠ itemType i := by
+  simp only [remoteNewBucket, Bool.and_eq_true] at h
+  cases hf : r.fc with
+  | none => exact Or.inl rfl
+  | some g =>
+    rw [hf] at h
+    exact Or.inr ⟨g, rfl, by simpa using h.2⟩
+
+/-- **the count survives every sync that keeps the limiter**: resize in place AND rebuild of the same type leave the
+    limiter object (`remInner`), its bucket's count (`remCount`) and the wrapper (`remOuter`) alone; after a sync that
+    does not rebuild the limiter is the old one, resized at most; only a NEW limiter object (`remoteNewBucket`) has a
+    new identity (`remInner + 1`) and an EMPTY bucket -/
 theorem c09_sync_flight (c c' : Cache) (i : Item) (nowS : Int) (r : Remote) (hr : c.remote = some r)
     (hg : ∃ g, r.fc = some g) (h : cacheRemoteSync c i nowS = .ok c') :
-    (remoteRecreates r c.loc.config i = false → c'.fl = c.fl ∧ ∃ g, r.fc = some g ∧
+    (remoteNewBucket r c.loc.config i = false → c'.fl = c.fl) ∧
+    (remoteRecreates r c.loc.config i = false → ∃ g, r.fc = some g ∧
         (c'.remote.bind (·.fc) = some g ∨ ∃ n b, c'.remote.bind (·.fc) = some (g.resize n b))) ∧
-    (remoteRecreates r c.loc.config i = true →
+    (remoteNewBucket r c.loc.config i = true →
         c'.fl = { c.fl with remInner := c.fl.remInner + 1, remCount := 0 }) := by
   unfold cacheRemoteSync at h
   simp only [hr, Option.getD_some, Option.isNone_some] at h
@@ -596,40 +610,42 @@ theorem c09_sync_flight (c c' : Cache) (i : Item) (nowS : Int) (r : Remote) (hr 
   | ok r' =>
     simp only [hs, bind, Except.bind, pure, Except.pure, Except.ok.injEq] at h
     subst h
-    refine ⟨fun hn => ?_, fun hn => ?_⟩
-    · obtain ⟨g, k1, k2⟩ := remoteSync_norecreate hn hs (Or.inr hg)
-      refine ⟨by simp [hn, flightAfterSync], g, k1, ?_⟩
-      rcases k2 with k | ⟨n, b, k⟩
-      · exact Or.inl (by simp [k])
-      · exact Or.inr ⟨n, b, by simp [k]⟩
-    · simp [hn, flightAfterSync]
+    refine ⟨fun hn => by simp [hn, flightAfterSync], fun hn => ?_, fun hn => by simp [hn, flightAfterSync]⟩
+    obtain ⟨g, k1, k2⟩ := remoteSync_norecreate hn hs (Or.inr hg)
+    refine ⟨g, k1, ?_⟩
+    rcases k2 with k | ⟨n, b, k⟩
+    · exact Or.inl (by simp [k])
+    · exact Or.inr ⟨n, b, by simp [k]⟩
 
-/-- the judge's declarative "this operation rebuilds" is the model's rebuild condition, in every reachable state
-    (`Inv` holds in all of them: `exec_inv`) -/
+/-- the judge's declarative "this operation rebuilds the wrapper" / "puts a new limiter object into it" are the model's
+    conditions in every reachable state (`Inv` holds in all of them: `exec_inv`); there a new object appears only when
+    there was no remote wrapper at all -/
 theorem c09_rebuilds_spec {K : Kind} {cfg : Cfg} {st : State} {m : Mon} {c : Cache} {s : Schema} {op : Op} {i : Item}
     (hi : Lemmas.RemoteLimiter.Inv K cfg st m) (hcache : st.cache = some c) (hsch : m.schema = some s)
     (heff : effective m op = true) (hitem : syncItem m op = some i) (hT : itemType i = K) :
-    rebuilds m op = remoteRecreates (c.remote.getD {}) s i :=
-  rebuilds_eq hi hcache hsch heff hitem hT
+    rebuilds m op = remoteRecreates (c.remote.getD {}) s i ∧
+    newBucket m op = remoteNewBucket (c.remote.getD {}) s i ∧
+    (remoteNewBucket (c.remote.getD {}) s i = true → c.remote = none) :=
+  ⟨rebuilds_eq hi hcache hsch heff hitem hT, newBucket_eq hi hcache hsch heff hitem hT⟩
 
-/-- **in-flight accounting.** In every reachable state (`Inv`; the monitor `m` has seen the same operations) in which
-    no type/strategy rebuild or stop happened while counted requests were in flight (`tainted = false`): the count of
-    the remote max-in-flight bucket IS the number of unfinished requests it admitted, and a new request is admitted
-    by it only if these, the new one included, are within the bound in force (`m.ob`: the schema's global limit, or
-    the largest global limit since the outage began) — across every resize, limit change, outage and recovery. -/
+/-- **in-flight accounting.** In every reachable state (`Inv`; the monitor `m` has seen the same operations) — no
+    exemption: across every resize, limit change, strategy change (the schema's or an answered one), outage and
+    recovery — the count of the remote max-in-flight bucket IS the number of unfinished requests it admitted, and a
+    new request is admitted by it only if these, the new one included, are within the bound in force (`m.ob`: the
+    schema's global limit, or the largest global limit since the outage began). -/
 theorem c09_inflight_admission {K : Kind} {cfg : Cfg} {st : State} {m : Mon} (hi : Lemmas.RemoteLimiter.Inv K cfg st m)
-    (ht : m.tainted = false) (c : Cache) (hc : st.cache = some c) :
-    c.fl.remCount = (st.handles.countP (flagOf c) : Int) ∧
+    (c : Cache) (hc : st.cache = some c) :
+    (c.remote.isSome = true → c.fl.remCount = (st.handles.countP (flagOf c) : Int)) ∧
     ∀ id, st.handles.any (·.id == id) = false → load cfg st = .remote → isMI (observe cfg st).rlim = true →
       (acquireStep st id).lastAdmit = some true → (st.handles.countP (flagOf c) : Int) + 1 ≤ m.ob.mi := by
-  refine ⟨(hi.fl.cur ht c hc).1, ?_⟩
+  refine ⟨(hi.fl.cur c hc).1, ?_⟩
   intro id hnew hld hmi hadm
   obtain ⟨st', h1, _, h3⟩ := step_acquire hi id
   have hst : st' = acquireStep st id := by
     simp only [step, Except.ok.injEq] at h1; exact h1.symm
   subst hst
   have hany : m.held.any (·.1 == id) = false := by rw [hi.fl.held, heldOf_any]; exact hnew
-  simp only [judgeTrans, judgeAcquire, observe_admitted, hadm, hany, hi.prev, observe_choice, hld, ht, hmi,
+  simp only [judgeTrans, judgeAcquire, observe_admitted, hadm, hany, hi.prev, observe_choice, hld, hmi,
     Bool.not_false, true_and] at h3
   rw [hi.fl.held, hc, heldOf_countP] at h3
   by_cases hle : (st.handles.countP (flagOf c) : Int) + 1 ≤ m.ob.mi
@@ -655,6 +671,94 @@ theorem c09_answer_returns_tokens (w w' : TBW) (loc : Schema) (mt : Meter) (a : 
     w'.tokenInflight = i32add (i32add w.tokenInflight hits) (toI32 (-hits)) := by
   rw [tbw_setLimit_tokenInflight h]
   simp [TBW.noteRequest, tickReply]
+
+/-! ## 8. every (re)configuration between valid schemas: the TYPE may change too -/
+
+/-- operation lists whose schema syncs carry ANY schema accepted by validation — max-in-flight or token bucket, the
+    type, the strategy and the limits may all change between syncs; everything else arbitrary as in `Allowed` -/
+def AllowedAny (ops : List Op) : Prop :=
+  ∀ op ∈ ops, match op with
+    | .schema s => validSchema s = true
+    | .meter x => 0 < x.rateDen
+    | _ => True
+
+theorem allowed_any {K : Kind} {ops : List Op} (h : Allowed K ops) : AllowedAny ops := by
+  intro op hop
+  have := h op hop
+  cases op <;> first | exact this.1 | exact this | trivial
+
+theorem allowedAny_ok {ops : List Op} (h : AllowedAny ops) : ∀ op ∈ ops, OpOK' op := by
+  intro op hop
+  have := h op hop
+  cases op with
+  | schema s => exact ⟨_, VS_of_valid this⟩
+  | meter x => exact this
+  | shards _ => trivial
+  | sync _ _ _ _ => trivial
+  | event => trivial
+  | acquire _ => trivial
+  | release _ => trivial
+  | tick _ _ => trivial
+  | hb _ _ _ => trivial
+  | reconcileCount => trivial
+  | answer _ _ => trivial
+  | setLimit _ => trivial
+
+/-- **Main theorem, every reconfiguration.** For every operation list over valid schemas of ANY type: the model never
+    panics — no error reply, time-out or answer in any window after a type change does — and the judge accepts the
+    observation after every operation: in particular (`c09.answer-type-mismatch`, `c09.fallback-choice`) no limiter of
+    another type than the schema in force is ever handed out, (`c09.inflight-exceeds-global`) the in-flight clause
+    holds without exemption, and (`c09.local-limit-not-enforced`) the local limiter is the new schema's at once. -/
+theorem c09_judge_any (cfg : Cfg) (ops : List Op) (h : AllowedAny ops) :
+    (run cfg ops).2 = none ∧ (run cfg ops).1.length = ops.length ∧
+      allGood (judgeAll cfg ops (run cfg ops).1) = true :=
+  run_inv' ops .mi (initState cfg) {} (inv_init .mi cfg) (allowedAny_ok h)
+
+/-- … and every remote limiter ever observed is within any bound `G` that dominates the global limits of all the
+    schemas synced -/
+theorem c09_cap_any (cfg : Cfg) (G : Bound) (ops : List Op) (h : AllowedAny ops)
+    (hG : ∀ s, Op.schema s ∈ ops → BLe (globalOf s) G) (h0 : BLe {} G) :
+    ∀ o ∈ (run cfg ops).1, ∀ l, o.rlim = some l → Lim.leb l G = true := by
+  apply run_cap' ops .mi (initState cfg) {} (inv_init .mi cfg) ⟨h0, h0, fun s hs => by cases hs⟩
+  intro op hop
+  exact ⟨allowedAny_ok h op hop, fun s hs => hG s (hs ▸ hop)⟩
+
+/-- **a type change drops the remote limiter**: from a cache whose local limiter is the (valid) schema's, a valid
+    schema of another type gives the new schema's local limiter and NO remote wrapper — whatever it held; `Load` hands
+    out the local limiter until a remote one of the new type has been built -/
+theorem c09_type_change_stops_remote (cfg : Cfg) (st : State) (c : Cache) (s : Schema) (hc : st.cache = some c)
+    (hold : validSchema c.loc.config = true) (hfc : c.loc.fc = some (limOf c.loc.config)) (hs : validSchema s = true)
+    (hne : guessType s ≠ guessType c.loc.config) :
+    ∃ st' c', step st (.schema s) = .ok st' ∧ st'.cache = some c' ∧ c'.remote = none ∧
+      c'.loc = { config := s, fc := some (limOf s) } ∧ load cfg st' = .loc := by
+  obtain ⟨hls, hlr⟩ := localSync_kind (VS_of_valid hold) (VS_of_valid hs) (fun e => hne e.symm) rfl hfc
+  refine ⟨_, _, by simp only [step, hc, hls]; rfl, rfl, rfl, rfl, ?_⟩
+  simp only [load]
+  cases cfg.rateLimiter <;> simp
+
+/-- **no reply can panic**: whatever the local configuration is by now (the schema's type may have changed under the
+    wrapper), `SetLimit` of both count wrappers is total -/
+theorem c09_setLimit_total (loc : Schema) (mt : Meter) (r : Reply) :
+    (∀ w : MIW, ∃ w', w.setLimit loc mt.maxInflight r = .ok w') ∧ (∀ w : TBW, ∃ x, w.setLimit loc mt r = .ok x) := by
+  constructor
+  · intro w
+    unfold MIW.setLimit
+    split
+    · exact ⟨_, rfl⟩
+    · cases r.err with
+      | tooOld => exact ⟨_, rfl⟩
+      | none => simp only []; split <;> exact ⟨_, rfl⟩
+      | other => simp only []; split <;> exact ⟨_, rfl⟩
+  · intro w
+    unfold TBW.setLimit
+    cases r.err with
+    | tooOld => exact ⟨_, rfl⟩
+    | none => exact ⟨_, rfl⟩
+    | other =>
+      simp only []
+      split
+      · cases loc.tb <;> exact ⟨_, rfl⟩
+      · exact ⟨_, rfl⟩
 
 /-! ## non-vacuity: the hypotheses are satisfiable by concrete, non-trivial runs; the judge is not trivially true -/
 
@@ -810,6 +914,56 @@ example : (judgeAll exCfg exOpsLeak ((run exCfg exOpsLeak).1.mapIdx fun i o =>
       if i = 10 then { o with req := some 0 } else o))[10]? = some ["c09.no-tokens-requested-on-demand"] := by decide
 example : (judgeAll exCfg exOpsLeak ((run exCfg exOpsLeak).1.mapIdx fun i o =>
       if i = 10 then { o with req := none } else o))[10]? = some ["c09.no-tokens-requested-on-demand"] := by decide
+
+/-- the schema's TYPE changes (max-in-flight 2/4 → token bucket 5/10 → max-in-flight, count): the remote limiter of the
+    old type is gone at once (local limiter of the new schema), an old-typed answer is ignored, an answer of the new
+    type builds the new remote limiter; an error reply after the last change does not panic (fallback to local 2) -/
+def exSA : Schema := { strategy := .alloc, mi := some 2, gmi := some 4 }
+def exSB : Schema := { strategy := .alloc, tb := some ⟨5, 5⟩, gtb := some ⟨10, 10⟩ }
+def exOpsKind : List Op :=
+  [ .schema exSA, .sync false 1 (some 1) 0, .answer true { strategy := .alloc, mi := some 4 },
+    .schema exSB, .answer true { strategy := .alloc, mi := some 4 }, .answer true { strategy := .alloc, tb := some ⟨10, 10⟩ },
+    .schema { exSA with strategy := .count }, .reconcileCount, .setLimit { err := .other, rt := 5 } ]
+
+theorem exOpsKind_allowed : AllowedAny exOpsKind := by
+  intro op hop
+  simp only [exOpsKind, List.mem_cons, List.not_mem_nil, or_false] at hop
+  rcases hop with rfl | rfl | rfl | rfl | rfl | rfl | rfl | rfl | rfl <;> simp [exSA, exSB, validSchema, guessType, maxInt32]
+
+example : (run exCfg exOpsKind).2 = none ∧ (run exCfg exOpsKind).1.map (fun o => (o.choice, o.lim, o.rlim)) =
+    [ (.loc, some (.mi 2), none), (.loc, some (.mi 2), none), (.remote, some (.mi 4), some (.mi 4)),
+      (.loc, some (.tb 5 5), none), (.loc, some (.tb 5 5), none), (.remote, some (.tb 10 10), some (.tb 10 10)),
+      (.loc, some (.mi 2), none), (.remote, some (.mi 1), some (.mi 1)), (.remote, some (.mi 2), some (.mi 2)) ] := by decide
+
+example : allGood (judgeAll exCfg exOpsKind (run exCfg exOpsKind).1) = true := (c09_judge_any exCfg exOpsKind exOpsKind_allowed).2.2
+
+/-- the judge rejects an implementation that keeps handing out the limiter of the old type after the change -/
+example : (judgeAll exCfg exOpsKind ((run exCfg exOpsKind).1.mapIdx fun i o =>
+      if i = 3 then { o with choice := .remote, lim := some (.mi 4), rlim := some (.mi 4) } else o))[3]?
+    = some ["c09.fallback-choice", "c09.answer-type-mismatch"] := by decide
+
+/-- the strategy of the item changes — answered by the server (""), then the schema's own (allocate → count) — with four
+    requests in flight under the global limit 4: the limiter is kept, the four stay counted, nothing more is admitted
+    until one of them finishes -/
+def exOpsStrategy : List Op :=
+  [ .schema exSA, .sync false 1 (some 1) 0, .answer true { strategy := .alloc, mi := some 100 },
+    .acquire 1, .acquire 2, .acquire 3, .acquire 4, .acquire 5,
+    .answer true { strategy := .empty, mi := some 100 }, .acquire 6,
+    .schema { exSA with strategy := .count }, .reconcileCount, .setLimit { accept := true, limit := 100, rt := 7 }, .acquire 7,
+    .release 1, .acquire 8 ]
+
+example : (run exCfg exOpsStrategy).1.map (fun o => (o.lim, o.admitted)) =
+    [ (some (.mi 2), none), (some (.mi 2), none), (some (.mi 4), none),
+      (some (.mi 4), some true), (some (.mi 4), some true), (some (.mi 4), some true), (some (.mi 4), some true),
+      (some (.mi 4), some false), (some (.mi 4), some false), (some (.mi 4), some false), (some (.mi 4), some false),
+      (some (.mi 1), some false), (some (.mi 4), some false), (some (.mi 4), some false), (some (.mi 4), some false),
+      (some (.mi 4), some true) ] := by decide
+
+/-- the judge rejects an implementation whose rebuilt limiter forgot the four (no exemption for strategy changes) -/
+example : (judgeAll exCfg exOpsStrategy ((run exCfg exOpsStrategy).1.mapIdx fun i o =>
+      if i = 9 then { o with admitted := some true } else o))[9]? = some ["c09.inflight-exceeds-global"] := by decide
+example : (judgeAll exCfg exOpsStrategy ((run exCfg exOpsStrategy).1.mapIdx fun i o =>
+      if i = 13 then { o with admitted := some true } else o))[13]? = some ["c09.inflight-exceeds-global"] := by decide
 
 /-- the heartbeat hypotheses of the hysteresis theorems are satisfiable (whatever the regenerated time-out is): up on a
     success, still up after exactly the time-out of consecutive failure, down one nanosecond later -/
